@@ -56,3 +56,22 @@ def replay_rows(vc, unit):
 def script_units(sidecars, func, prefix, props, tier, tables):
     return [("script", sidecars, "pyvc.sensor_harness", func, f"{prefix}:{t}", props, tier, {"tname": t})
             for t in tables]
+
+
+def replay_window(vc, unit):
+    """native replay of a C14 window obligation 'window:block@<first>+<count>/<row id>/...'"""
+    import re
+    from pyvc import units
+    from pyvc.native import dec
+    m = re.match(r"window:block@(\d+)\+(\d+)/([^/]+)/", vc["name"])
+    if not m:
+        return None
+    task = {"op": "func", "module": "contracts.sensor_native", "func": "replay_window",
+            "kwargs": {"first": int(m.group(1)), "count": int(m.group(2)), "sid": m.group(3)}}
+    out = units.native_batch([task])[0]
+    rec = {"kind": "script", "native_task": task, "native_result": out}
+    if not out["ok"]:
+        return None, rec
+    res = dec(out["result"])
+    rec["native_result"] = res
+    return bool(res.get("violates")), rec
